@@ -90,6 +90,18 @@ def handle : List String → Option String
     | .zeroSilent => return "zero-silent"
     | .zeroWarned => return "zero-warned"
     | .raised => return "raised"
+  -- SimpleEopDatabase.tai_utc(mjd) alone (also outside the days of the finals files), mjd = num / D
+  | ["d3tai", num] => some <| Id.run do
+    let some num := iOfStr? num | return "bad-op"
+    match taiUtcAt leapTable num with
+    | some v => return s!"ok {v}"
+    | none => return "err key"
+  -- SimpleEopDatabase.finals(mjd)["ut1_utc"] alone: `_finals[int(mjd)]`
+  | ["d3fin", num] => some <| Id.run do
+    let some num := iOfStr? num | return "bad-op"
+    match finalsLookup (Int.tdiv num D) with
+    | some v => return s!"ok {v}"
+    | none => return "err key"
   | ["d3tdb", mjd] => some <| Id.run do
     let some x := fOfStr? mjd | return "bad-op"
     return fToStr (F.tdbMinusTt x)
